@@ -206,15 +206,20 @@ def stage_b_sim(ctx, front, cfgp, label, num, depth, devs=(), vmap=None, report_
 NAMES = [['a'], ['a', 'b'], ['a', 'b', 'c'], ['a', 'c'], ['b'], ['a', 'b', 'd']]
 # names ending in "P": <base>/<ParametersSha256Digest> - Interests expressed with ApplicationParameters (see pitkit.uri)
 ALLN = NAMES + [['a', 'P'], ['a', 'b', 'P']]
+# long histories: names four to six components deep (Data below a CanBePrefix Interest several levels up)
+DEEP = [['a', 'b', 'd', 'e'], ['a', 'b', 'd', 'e', 'f'], ['a', 'b', 'd', 'e', 'f', 'g']]
+ALLN = ALLN + DEEP
 
 
-NAME_BIAS = [0.0]      # long histories: share of Interests / packets that go to ONE name (deep table nodes)
+NAME_BIAS = [0.0, 0.0]    # long histories: share of Interests / packets that go to ONE name (deep table nodes)
 
 
 def pick_name(rng):
     if NAME_BIAS[0] and rng.random() < NAME_BIAS[0]:
         return NAMES[1]
-    return rng.choice(ALLN[len(NAMES):]) if rng.random() < 0.12 else rng.choice(NAMES)
+    if NAME_BIAS[1] and rng.random() < NAME_BIAS[1]:
+        return rng.choice(DEEP)
+    return rng.choice(ALLN[len(NAMES):len(NAMES) + 2]) if rng.random() < 0.12 else rng.choice(NAMES)
 
 
 def next_timer(entries, unfinished, now):
@@ -395,12 +400,13 @@ def stage_c_long(ctx, front, n, devs=(), report_devs=True, max_entries=48, n_eve
         w = dict(Express=12, RecvData=4, ValFinish=5, Time=3, Cancel=0.6, Shutdown=0.01, Connect=3, RecvNack=0.8, RecvJunk=0.3, Await=3)
         w.update(kw.get('weights') or {})
         NAME_BIAS[0] = 0.55 if i % 2 == 0 else 0.0
+        NAME_BIAS[1] = 0.0 if i % 2 == 0 else 0.35
         try:
             rec = random_schedule(ctx.rng, front, n_events, weights=w, max_entries=max_entries, drain=3 * max_entries,
                                   lives=[2, 3, 5, 8, 20, 26, 30, 660, 7000, 7000, pitkit.DEFAULT_LIFE],
                                   **{k: v for k, v in kw.items() if k != 'weights'})
         finally:
-            NAME_BIAS[0] = 0.0
+            NAME_BIAS[0] = NAME_BIAS[1] = 0.0
         recs.append(rec)
         ctx.nt('Clong' + front + str(i))
     ctx.traces += len(recs)
